@@ -159,6 +159,10 @@ RW2 = [
 FORSTMT = dict(rule="R5", re=r"for stmt in (\w+(?:\.\w+)*) (/\*@L0@\*/)\{(/\*@LB0@\*/)", to=r"let mut verif_v = \1; let mut verif_k: usize = 0; while verif_k < verif_v.len() \2{ let stmt = vec_take_stmt(&mut verif_v, verif_k); verif_k += 1; \3", expect=1,
                why="consuming iteration over Vec<Statement> -> index loop in the same order")
 
+PATCHLOOP = dict(invariant=["verif_k <= break_pos@.len()", "gen_s(&verif_s0, self)", "cwf(self)",
+                            "forall|j: int| verif_k <= j < break_pos@.len() ==> is_start(self, #[trigger] break_pos@[j] as int) && op_at(code(self), break_pos@[j] as int) == Opcode::Jump && break_pos@[j] >= code(&verif_s0).len()"],
+                 decreases="break_pos@.len() - verif_k", body_prologue=BCAST)
+
 COMPILE = [
     dict(kind="enum", file=ST, path="SymbolScope", attrs=["#[derive(PartialEq, Eq, Structural)]"]),
     dict(kind="struct", file=ST, path="Symbol"),
@@ -177,7 +181,32 @@ COMPILE = [
       loops={0: dict(invariant=["verif_k <= verif_v@.len()", "gen_s(old(self), self)"], decreases="verif_v@.len() - verif_k", body_prologue=BCAST)}),
     m("compile_program", ret="r", requires=PRE, ensures=GEN_S, attrs=NODEC),
     m("compile_let_stmt", ret="r", requires=PRE, ensures=GEN, attrs=NODEC),
-    m("compile_statement", ret="r", requires=PRE, ensures=GEN_S, prologue=BCAST + REFL, attrs=NODEC),
+    m("compile_statement", ret="r", requires=PRE, ensures=GEN_S, prologue=BCAST + REFL, attrs=NODEC,
+      rewrites=[
+          dict(rule="R3", re=r"self\.scopes\[self\.scope_index\]\.loop_stack\.push\(loop_label\);", expect=2, strict=True,
+               to="let ghost verif_s0 = *self; let verif_i = self.scope_index; let mut verif_sc = scope_take(&mut self.scopes, verif_i); verif_sc.loop_stack.push(loop_label); scope_put(&mut self.scopes, verif_i, verif_sc); let ghost verif_s1 = *self; proof { assert(sc(&verif_s1).loop_stack@.subrange(0, sc(&verif_s0).loop_stack@.len() as int) =~= sc(&verif_s0).loop_stack@); lemma_loop_pushed(&verif_s0, &verif_s1); }",
+               why="method call on a field of a Vec element -> take/modify/put back; ghost snapshots and proof hint"),
+          dict(rule="R3", re=r"if let Some\(loop_curr\) = self\.scopes\[self\.scope_index\]\.loop_stack\.pop\(\) \{", expect=2, strict=True,
+               to="let ghost verif_s3 = *self; let verif_popped = { let verif_i = self.scope_index; let mut verif_sc = scope_take(&mut self.scopes, verif_i); let verif_r = verif_sc.loop_stack.pop(); scope_put(&mut self.scopes, verif_i, verif_sc); verif_r }; proof { lemma_loop_popped(&verif_s0, &verif_s1, &verif_s3, self); } if let Some(loop_curr) = verif_popped {",
+               why="method call on a field of a Vec element -> take/modify/put back; ghost snapshot and proof hint"),
+          dict(rule="R5", re=r"for pos in break_pos\.iter\(\) (/\*@L\d@\*/)\{(/\*@LB\d@\*/)", expect=2, strict=True,
+               to=r"let mut verif_k: usize = 0; while verif_k < break_pos.len() \1{ let pos = &break_pos[verif_k]; verif_k += 1; \2", why="iteration over a slice -> index loop in the same order"),
+          dict(rule="R5m", expect=1, strict=True,
+               re=r"let loop_stack = &mut self\.scopes\[self\.scope_index\]\.loop_stack;\s*for loop_label in loop_stack\.iter_mut\(\)\.rev\(\) (/\*@L2@\*/)\{(/\*@LB2@\*/)\s*if let Some\(loop_label_name\) = &loop_label\.label \{\s*if loop_label_name == &label\.literal \{\s*loop_label\.break_positions\.push\(pos\);\s*return Ok\(\(\)\);\s*\}\s*\}\s*(/\*@LE2@\*/)\}(/\*@LA2@\*/)",
+               to=r"let ghost verif_sb = *self; let verif_i = self.scope_index; let mut verif_sc = scope_take(&mut self.scopes, verif_i); let mut verif_k: usize = verif_sc.loop_stack.len(); while verif_k > 0 \1{\2 verif_k -= 1; if loopctx_label_is(&verif_sc.loop_stack, verif_k, &label.literal) { loopctx_push_break(&mut verif_sc.loop_stack, verif_k, pos); scope_put(&mut self.scopes, verif_i, verif_sc); proof { lemma_break_recorded(&verif_sb, self, verif_k as int, pos); } return Ok(()); } \3}\4 scope_put(&mut self.scopes, verif_i, verif_sc);",
+               why="reverse mutable iteration over the loop stack, recording the break position in the first context (from the innermost) whose label matches -> index loop from the end with the same effect; the label comparison is a shim"),
+          dict(rule="R5m", expect=1, strict=True,
+               re=r"if let Some\(last\) = self\.scopes\[self\.scope_index\]\.loop_stack\.last_mut\(\) \{\s*last\.break_positions\.push\(pos\);\s*\}",
+               to="{ let ghost verif_sb = *self; let verif_i = self.scope_index; let mut verif_sc = scope_take(&mut self.scopes, verif_i); let verif_n = verif_sc.loop_stack.len(); if verif_n > 0 { loopctx_push_break(&mut verif_sc.loop_stack, verif_n - 1, pos); } scope_put(&mut self.scopes, verif_i, verif_sc); proof { if verif_n > 0 { lemma_break_recorded(&verif_sb, self, verif_n - 1, pos); } } }",
+               why="last_mut() on the loop stack -> index of the last element, same effect"),
+      ],
+      loops={0: PATCHLOOP, 1: PATCHLOOP,
+             2: dict(invariant=["verif_k <= verif_sc.loop_stack@.len()", "verif_sc == sc(&verif_sb)", "verif_i == verif_sb.scope_index", "self.scope_index == verif_sb.scope_index", "self.scopes@.len() == verif_sb.scopes@.len()",
+                                "forall|j: int| 0 <= j < verif_sb.scopes@.len() && j != verif_i ==> self.scopes@[j] == verif_sb.scopes@[j]",
+                                "self.constants == verif_sb.constants", "self.symtab == verif_sb.symtab", "self.filters == verif_sb.filters", "self.filter_end == verif_sb.filter_end", "self.encoding_error == verif_sb.encoding_error",
+                                "cwf(&verif_sb)", "code(&verif_sb).len() > 0", "sc(&verif_sb).last_ins.position == pos", "sc(&verif_sb).last_ins.opcode == Opcode::Jump", "fresh(&sc(&verif_sb))", "gen_s(old(self), &verif_sb)", "pos >= code(old(self)).len()"],
+                     decreases="verif_k", body_prologue=BCAST),
+             3: dict(invariant=["gen_s(old(self), self)", "*self == *old(self)"], body_prologue=BCAST)}),
     m("compile_expression", ret="r", requires=PRE, ensures=GEN, prologue=BCAST + REFL, attrs=NODEC,
       loops={0: dict(invariant=["gen(old(self), self)"], body_prologue=BCAST), 1: dict(invariant=["gen(old(self), self)"], body_prologue=BCAST), 2: dict(invariant=["gen(old(self), self)"], body_prologue=BCAST)}),
     m("compile_if_expression", ret="r", requires=PRE, ensures=GEN, prologue=BCAST, attrs=NODEC),
@@ -212,7 +241,7 @@ UNIT = dict(
     uses="use std::rc::Rc;",
     lemmas={},
     global_rewrites=RW2 + RW,
-    rlimit=30,
+    rlimit=100,
     items=[
         dict(kind="enum", file=O, path="Opcode", attrs=["#[derive(Clone, Copy, PartialEq, Eq, Structural)]"]),
         dict(kind="struct", file=DF, path="Instructions"),
